@@ -1,7 +1,7 @@
 PROP = dict(
         engine="registry", harness="registry", driver="drv_registry",
         props=["Hostd.Props.C20"],
-        quick=dict(n=160, len=40, shards=8, timeout=300),
+        quick=dict(n=640, len=40, shards=16, timeout=300),
         thorough=dict(n=6000, len=80, shards=16, timeout=1500),
         nontrivial=r"res=ok", min_ops=5, min_kinds=2,
         trusted_base=COMMON_TB + ["protocol ordering ValidateRegistryUpdate transcribed in Model/Registry.supersedes and cross-checked on every put",
